@@ -157,12 +157,9 @@ func runPlan(t *testing.T, def *PropDef, plan interface{}, tape *simrt.Tape, tie
 		maxSteps = 300000
 	}
 	ro := Execute(t, tape, tier, keepLog, maxSim, maxSteps, func(w *World) { def.Run(w, plan) })
-	if ro.Res.Stop == "step-cap" || ro.Res.Stop == "simtime-cap" {
-		// the run exhausted its budget before the scenario finished: no verdict from the scenario's own
-		// oracles (a busy loop is judged below from the scheduler's own statistics)
-		ro.Violations = nil
-		ro.Armed = false
-	}
+	// A run that exhausted its step or simulated-time budget before the scenario finished keeps
+	// what its oracles had already reported (nothing is recorded once the teardown has begun, see
+	// World.Violate); a busy loop is judged below from the scheduler's own statistics.
 	if def.PanicRule != "" {
 		for _, p := range ro.Res.Panics {
 			if fn := limeFrame(p.Stack); fn != "" {
